@@ -114,6 +114,7 @@ type receiverInfo struct {
 	name     string
 	typeName string
 	pkgPath  string
+	obj      types.Object
 }
 
 // extractReceiverInfo extracts receiver information from a method declaration
@@ -142,6 +143,7 @@ func extractReceiverInfo(pass *analysis.Pass, funcDecl *ast.FuncDecl) *receiverI
 		name:     recvName,
 		typeName: typeInfo.TypeName,
 		pkgPath:  typeInfo.PkgPath,
+		obj:      pass.TypesInfo.Defs[recvField.Names[0]],
 	}
 }
 
@@ -380,8 +382,8 @@ func checkReceiverIncDec(
 		return nil
 	}
 
-	// Check if the identifier is the receiver
-	if ident.Name != ctx.currentReceiver.name {
+	// Check if the identifier is the receiver (the object, not a shadowing variable of the same name)
+	if ident.Name != ctx.currentReceiver.name || ctx.pass.TypesInfo.Uses[ident] != ctx.currentReceiver.obj {
 		return nil
 	}
 
@@ -499,8 +501,8 @@ func checkReceiverReassignment(
 		return nil
 	}
 
-	// Check if the identifier is the receiver
-	if ident.Name != ctx.currentReceiver.name {
+	// Check if the identifier is the receiver (the object, not a shadowing variable of the same name)
+	if ident.Name != ctx.currentReceiver.name || ctx.pass.TypesInfo.Uses[ident] != ctx.currentReceiver.obj {
 		return nil
 	}
 
